@@ -2,22 +2,22 @@ SPECIFICATION Spec
 CONSTANTS
   NV = 2
   StabV = {}
-  HasHf = FALSE
-  NP = 1
+  HasHf = TRUE
+  NP = 2
   UseQueue = TRUE
   SkipQueue = FALSE
-  Faults = TRUE
+  Faults = FALSE
   FaultKinds = {"crash", "reject", "third"}
-  MaxC = 8
+  MaxC = 9
   RepStatuses = {"SUCCESSFUL", "FAILED"}
-  Atomic = FALSE
+  Atomic = TRUE
   ReportFine = FALSE
   AutoApprove = TRUE
   Opts = {}
   ReportOnce = TRUE
-  MaxLevel = 26
+  MaxLevel = 10
   EmitJson = FALSE
-  PruneOnlyOwned = TRUE
+  PruneOnlyOwned = FALSE
   PushOnlyChanged = FALSE
   AtomicPush = TRUE
   FixSelect = TRUE
